@@ -98,6 +98,7 @@ type Cmd struct {
 	Env     []string // extra KEY=VALUE entries
 	Timeout time.Duration
 	Strace  string // if non-empty, path of the strace log to write
+	retries int
 }
 
 // Result is what was observed at the process boundary.
@@ -190,8 +191,15 @@ func Run(c Cmd) *Result {
 	res := &Result{}
 	t0 := time.Now()
 	if err := cmd.Start(); err != nil {
+		// a freshly written executable can be "text file busy" while another worker forks: try again
+		if strings.Contains(err.Error(), "text file busy") && c.retries < 20 {
+			time.Sleep(25 * time.Millisecond)
+			c.retries++
+			return Run(c)
+		}
 		res.Exit = -1
 		res.Err = err.Error()
+		res.TimedOut = true // could not be observed: inconclusive for every monitor
 		return res
 	}
 	done := make(chan error, 1)
